@@ -12,6 +12,30 @@ def replay(spec):
     from bioscrape.simulator import py_simulate_model
     from bioscrape.random import py_seed_random
     problems = []
+    if spec.get("kind") in ("LineageVolumeCellState", "VolumeCellState"):
+        # cell states over a grid of values that includes zeros and negative birth times
+        import itertools
+        from bioscrape.simulator import VolumeCellState
+        from bioscrape.lineage import LineageVolumeCellState
+        for t0, tt, v0, vol in itertools.product((-5.0, 0.0, 2.0), (0.0, 1.5), (1.0, 0.5), (2.0, 1.0)):
+            if spec["kind"] == "LineageVolumeCellState":
+                cs = LineageVolumeCellState(v0=v0, t0=t0, state=np.array([1.0, 0.0, 3.0]), volume=vol, time=tt, divided=2, dead=-1)
+                cs.py_set_time(tt)          # as a simulation leaves it: current time and volume set through the setters
+                cs.py_set_volume(vol)
+                get = lambda o: (o.py_get_time(), o.py_get_volume(), o.py_get_initial_time(), o.py_get_initial_volume(), list(o.py_get_state()))
+            else:
+                cs = VolumeCellState(time=tt, state=np.array([1.0, 0.0, 3.0]), volume=vol)
+                get = lambda o: (o.py_get_time(), o.py_get_volume(), list(o.py_get_state()))
+            for name, f in (("pickle", lambda m: pickle.loads(pickle.dumps(m))), ("deepcopy", copy.deepcopy)):
+                try:
+                    new = f(cs)
+                    if get(new) != get(cs):
+                        problems.append("%s of a %s (time, volume, birth time, birth volume, state) = %s comes back as %s" % (name, spec["kind"], get(cs), get(new)))
+                except Exception as e:
+                    problems.append("%s of a %s fails: %s: %s" % (name, spec["kind"], type(e).__name__, e))
+            if problems:
+                break
+        return {"reproduced": bool(problems), "observed": problems[:2], "expected": "an equal cell state"}
     args = dict(species=["A", "B", "C"],
                 reactions=[(["A", "A"], ["B"], "massaction", {"k": "k1"}),
                            (["B"], [], "hillpositive", {"k": 1.0, "K": 2.0, "n": 2, "s1": "A"}, "gamma", [], ["C"], {"k": 3.0, "theta": "th"}),
